@@ -1,4 +1,5 @@
 import Spec.Offline
+import Props.C03
 import Lemmas.Offline.Split
 import Lemmas.Offline.Literal
 import Lemmas.Offline.Run
@@ -379,5 +380,314 @@ theorem same_effect_statement_false : ¬ same_effect_statement := by
     every hypothesis -/
 example : [⟨['u'], [.createTable ['t'] [⟨['s'], .text, true⟩], .bulkInsert ['t'] [['s']] [[.str ['a', ';', '\'', 'b']]]],
     [.insert ['r']]⟩].all (stepOk (fun _ => true)) = true := by decide +kernel
+
+
+/-! ## every plan of every history: `midOk` derived from the bookkeeping invariant of C03 -/
+open Model.Rev (LMap Id runSteps updateToStep applyStmts applyStmt stepStmts)
+
+/-- the version-table statement of the bookkeeping model (`Model.Rev`, property C03) as a version
+    operation of the script model -/
+def verOf : Model.Rev.Stmt → VerOp
+  | .ins v => .insert v.toList
+  | .del v => .delete v.toList
+  | .upd a b => .update a.toList b.toList
+
+/-- the version operations of each step of a run, as `HeadMaintainer.update_to_step` issues them
+    from the rows it finds -/
+def verLists (m : LMap) : List Id → List Model.Rev.Step → List (List VerOp)
+  | _, [] => []
+  | rows, s :: r =>
+    match updateToStep m rows s with
+    | .ok (rows', st) => st.map verOf :: verLists m rows' r
+    | .error _ => []
+
+/-- the head set of the script model and the rows of the bookkeeping model hold the same ids -/
+def SameSet (h : List Str) (rows : List Id) : Prop := ∀ x : Id, x.toList ∈ h ↔ x ∈ rows
+
+theorem sameSet_nonempty {h : List Str} {rows : List Id} (hs : SameSet h rows) (hne : rows ≠ []) : h.isEmpty = false := by
+  cases rows with
+  | nil => exact absurd rfl hne
+  | cons x r =>
+    have : x.toList ∈ h := (hs x).mpr List.mem_cons_self
+    cases h with
+    | nil => simp at this
+    | cons _ _ => rfl
+
+theorem hmStep_apply {h : List Str} {rows rows' : List Id} (hs : SameSet h rows) (st : Model.Rev.Stmt)
+    (ha : applyStmt rows st = .ok rows') : ∃ h', hmStep h (verOf st) = some h' ∧ SameSet h' rows' := by
+  cases st with
+  | ins v =>
+    simp only [applyStmt, Model.Rev.insertVersion] at ha
+    split at ha
+    · simp at ha
+    · rename_i hv
+      simp only [Except.ok.injEq] at ha; subst ha
+      have hv' : v.toList ∉ h := fun hh => hv ((hs v).mp hh)
+      refine ⟨h ++ [v.toList], by simp [verOf, hmStep, hv'], ?_⟩
+      intro x
+      simp only [List.mem_append, List.mem_singleton, String.toList_inj, hs x]
+  | del v =>
+    simp only [applyStmt, Model.Rev.deleteVersion] at ha
+    split at ha
+    · rename_i hv
+      simp only [Except.ok.injEq] at ha; subst ha
+      have hv' : v.toList ∈ h := (hs v).mpr hv
+      refine ⟨h.filter (fun x => x ≠ v.toList), by simp [verOf, hmStep, hv'], ?_⟩
+      intro x
+      simp only [List.mem_filter, hs x, ne_eq, decide_not, Bool.not_eq_eq_eq_not, Bool.not_true, decide_eq_false_iff_not,
+        String.toList_inj, bne_iff_ne]
+    · simp at ha
+  | upd a b =>
+    simp only [applyStmt, Model.Rev.updateVersion] at ha
+    split at ha
+    · simp at ha
+    · rename_i hb
+      split at ha
+      · rename_i hain
+        simp only [Except.ok.injEq] at ha; subst ha
+        have hb' : b.toList ∉ h := fun hh => hb ((hs b).mp hh)
+        have ha' : a.toList ∈ h := (hs a).mpr hain
+        refine ⟨h.map (fun x => if x = a.toList then b.toList else x), by simp [verOf, hmStep, hb', ha'], ?_⟩
+        intro x
+        simp only [List.mem_map, List.mem_append, List.mem_filter, List.mem_singleton, bne_iff_ne, ne_eq]
+        constructor
+        · rintro ⟨y, hy, hyx⟩
+          by_cases e : y = a.toList
+          · simp only [e, if_true] at hyx
+            exact Or.inr (String.toList_inj.mp hyx.symm)
+          · simp only [e, if_false] at hyx
+            subst hyx
+            exact Or.inl ⟨(hs x).mp hy, fun e2 => e (by rw [e2])⟩
+        · rintro (⟨hx, hxa⟩ | rfl)
+          · exact ⟨x.toList, (hs x).mpr hx, by simp [String.toList_inj, hxa]⟩
+          · exact ⟨a.toList, ha', by simp⟩
+      · simp at ha
+
+theorem hmAll_apply : ∀ (sts : List Model.Rev.Stmt) {h : List Str} {rows rows' : List Id}, SameSet h rows →
+    applyStmts rows sts = .ok rows' → ∃ h', hmAll h (sts.map verOf) = some h' ∧ SameSet h' rows'
+  | [], h, rows, rows', hs, ha => by
+    simp only [applyStmts, Except.ok.injEq] at ha; subst ha
+    exact ⟨h, rfl, hs⟩
+  | st :: r, h, rows, rows', hs, ha => by
+    simp only [applyStmts] at ha
+    cases h1 : applyStmt rows st with
+    | error e => simp [h1] at ha
+    | ok rows1 =>
+      simp only [h1] at ha
+      obtain ⟨h1', e1, s1⟩ := hmStep_apply hs st h1
+      obtain ⟨h2, e2, s2⟩ := hmAll_apply r s1 ha
+      exact ⟨h2, by simp [hmAll, e1, e2], s2⟩
+
+/-- **From the bookkeeping run to the script model**: if the bookkeeping model records a plan
+without a failing statement and the version table is non-empty after every step but the last,
+then the same version operations satisfy `midOk` in the script model. -/
+theorem midOk_of_run (m : LMap) : ∀ (steps : List Model.Rev.Step) (R : List Id) (tr : List (List Id)) (h0 : List Str)
+    (osteps : List Step), runSteps m R steps = .ok tr → SameSet h0 R →
+    osteps.map (·.ver) = verLists m R steps → (∀ rows ∈ tr.dropLast, rows ≠ []) → midOk h0 osteps = true := by
+  intro steps
+  induction steps with
+  | nil =>
+    intro R tr h0 osteps _ _ hv _
+    cases osteps with
+    | nil => rfl
+    | cons o os => simp [verLists] at hv
+  | cons s rest ih =>
+    intro R tr h0 osteps hrun hs hv hne
+    simp only [runSteps] at hrun
+    cases hu : updateToStep m R s with
+    | error e => simp [hu] at hrun
+    | ok pr =>
+      obtain ⟨rows', st⟩ := pr
+      simp only [hu] at hrun
+      cases hr : runSteps m rows' rest with
+      | error e => simp [hr] at hrun
+      | ok tr' =>
+        simp only [hr, Except.ok.injEq] at hrun
+        subst hrun
+        simp only [verLists, hu] at hv
+        cases osteps with
+        | nil => simp at hv
+        | cons o os =>
+          simp only [List.map_cons, List.cons.injEq] at hv
+          obtain ⟨hov, hosv⟩ := hv
+          -- the statements of this step, applied
+          have happ : applyStmts R st = .ok rows' := by
+            unfold updateToStep at hu
+            cases h1 : stepStmts m R s with
+            | error e => simp [h1] at hu
+            | ok st1 =>
+              simp only [h1] at hu
+              cases h2 : applyStmts R st1 with
+              | error e => simp [h2] at hu
+              | ok r2 =>
+                simp only [h2, Except.ok.injEq, Prod.mk.injEq] at hu
+                obtain ⟨e1, e2⟩ := hu
+                subst e1; subst e2; exact h2
+          obtain ⟨h', eh, sh⟩ := hmAll_apply st hs happ
+          simp only [midOk, hov, eh]
+          have hrec := ih rows' tr' h' os hr sh hosv (by
+            intro rows hrows
+            apply hne
+            cases tr' with
+            | nil => simp at hrows
+            | cons t ts => simp only [List.dropLast_cons_cons, List.mem_cons]; exact Or.inr hrows)
+          simp only [hrec, Bool.and_true, Bool.or_eq_true, List.isEmpty_iff, Bool.not_eq_true']
+          by_cases hos : os = []
+          · exact Or.inl hos
+          · right
+            -- more steps follow, so `rows'` is not the last entry of the trace
+            have hrest : rest ≠ [] := by
+              intro e; subst e; simp [verLists] at hosv; exact hos hosv
+            have htr' : tr' ≠ [] := by
+              intro e; subst e
+              cases rest with
+              | nil => exact hrest rfl
+              | cons s2 r2 =>
+                simp only [runSteps] at hr
+                cases h3 : updateToStep m rows' s2 with
+                | error e => simp [h3] at hr
+                | ok p3 =>
+                  simp only [h3] at hr
+                  cases h4 : runSteps m p3.1 r2 with
+                  | error e => simp [h4] at hr
+                  | ok t4 => simp [h4] at hr
+            have : rows' ≠ [] := by
+              apply hne
+              cases tr' with
+              | nil => exact absurd rfl htr'
+              | cons t ts => simp
+            exact sameSet_nonempty sh this
+
+open Lemmas.Rev C03
+
+theorem sameSet_map (R : List Id) : SameSet (R.map String.toList) R := by
+  intro x
+  simp only [List.mem_map, String.toList_inj]
+  constructor
+  · rintro ⟨y, hy, rfl⟩; exact hy
+  · intro hx; exact ⟨x, hx, rfl⟩
+
+/-- after every step of an upgrade the version table is non-empty -/
+theorem trace_nonempty_up {m : LMap} (L : Loaded m) : ∀ (plan A : List Id) (tr : List (List Id)),
+    TraceInv m A (plan.map (·, true)) tr → ∀ rows ∈ tr, rows ≠ [] := by
+  intro plan
+  induction plan with
+  | nil =>
+    intro A tr h rows hr
+    cases tr with
+    | nil => simp at hr
+    | cons _ _ => simp [TraceInv] at h
+  | cons r rest ih =>
+    intro A tr h rows hr
+    cases tr with
+    | nil => simp [TraceInv] at h
+    | cons t ts =>
+      simp only [List.map_cons, TraceInv, if_true] at h
+      obtain ⟨inv, hrest⟩ := h
+      rcases List.mem_cons.mp hr with rfl | hr'
+      · obtain ⟨hmx, hmax, _⟩ := exists_max_above L (r :: A) r List.mem_cons_self
+        intro e
+        have := (inv.rows hmx).mpr hmax
+        rw [e] at this; simp at this
+      · exact ih (r :: A) ts hrest rows hr'
+
+/-- during a downgrade the version table is empty at most after the last step -/
+theorem trace_nonempty_down {m : LMap} (L : Loaded m) : ∀ (plan A : List Id) (tr : List (List Id)), plan.Nodup →
+    (∀ x ∈ plan, x ∈ A) → TraceInv m A (plan.map (·, false)) tr → ∀ rows ∈ tr.dropLast, rows ≠ [] := by
+  intro plan
+  induction plan with
+  | nil =>
+    intro A tr _ _ h rows hr
+    cases tr with
+    | nil => simp at hr
+    | cons _ _ => simp [TraceInv] at h
+  | cons r rest ih =>
+    intro A tr hnd hsub h rows hr
+    cases tr with
+    | nil => simp [TraceInv] at h
+    | cons t ts =>
+      simp only [List.map_cons, TraceInv, Bool.false_eq_true, if_false] at h
+      obtain ⟨inv, hrest⟩ := h
+      have hnd' := (List.nodup_cons.mp hnd)
+      have hsub' : ∀ x ∈ rest, x ∈ A.filter (· != r) := by
+        intro x hx
+        refine List.mem_filter.mpr ⟨hsub x (List.mem_cons_of_mem _ hx), ?_⟩
+        simp only [bne_iff_ne, ne_eq]
+        intro e; subst e; exact hnd'.1 hx
+      cases ts with
+      | nil => simp at hr
+      | cons t2 ts2 =>
+        simp only [List.dropLast_cons_cons, List.mem_cons] at hr
+        rcases hr with rfl | hr'
+        · -- more steps follow: some revision of the plan is still applied
+          cases rest with
+          | nil => simp [TraceInv] at hrest
+          | cons x xs =>
+            have hxA := hsub' x List.mem_cons_self
+            obtain ⟨hmx, hmax, _⟩ := exists_max_above L _ x hxA
+            intro e
+            have := (inv.rows hmx).mpr hmax
+            rw [e] at this; simp at this
+        · exact ih (A.filter (· != r)) (t2 :: ts2) hnd'.2 hsub' hrest rows (by simpa using hr')
+
+/-- **`midOk` for every upgrade plan**: whatever the history (branches, merge points, several
+roots, dependencies), from a version table consistent with the applied set, the version
+operations of the plan Alembic computes leave the head set non-empty after every step. -/
+theorem midOk_upgrade_plan {m : LMap} (L : Loaded m) {A R targets plan : List Id} (inv : RowsInv m A R)
+    (hplan : C01.UpgradePlan m R targets plan) (osteps : List Step)
+    (hv : osteps.map (·.ver) = verLists m R (plan.map (Model.Rev.Step.rev · true))) :
+    midOk (R.map String.toList) osteps = true := by
+  obtain ⟨tr, hrun, htr⟩ := upgrade_run L inv hplan
+  exact midOk_of_run m _ R tr _ osteps hrun (sameSet_map R) hv
+    (fun rows hr => trace_nonempty_up L plan A tr htr rows (List.dropLast_subset tr hr))
+
+/-- **`midOk` for every downgrade plan**: the head set becomes empty at most after the last step. -/
+theorem midOk_downgrade_plan {m : LMap} (L : Loaded m) {A R roots plan : List Id} (inv : RowsInv m A R)
+    (hplan : C02.DowngradePlan m R roots plan) (osteps : List Step)
+    (hv : osteps.map (·.ver) = verLists m R (plan.map (Model.Rev.Step.rev · false))) :
+    midOk (R.map String.toList) osteps = true := by
+  obtain ⟨tr, hrun, htr⟩ := downgrade_run L inv hplan
+  refine midOk_of_run m _ R tr _ osteps hrun (sameSet_map R) hv
+    (trace_nonempty_down L plan A tr hplan.nodup ?_ htr)
+  intro x hx
+  exact (applied_iff_requires L inv x).mpr ((hplan.exact x).mp hx).2
+
+/-- **C12.same_effect_upgrade_plan.** `upgrade --sql` over ANY history: for every loaded revision
+map (branches, merge points, several roots, dependencies), every version table `R` consistent
+with an applied set, every plan Alembic computes for it (`C01.UpgradePlan`), and every list of
+script steps whose version operations are the ones `HeadMaintainer` issues along that plan
+(bodies, comments arbitrary but `stepOk`): executing the offline script statement by statement
+has the same effect as the online run.  `midOk` is derived (from C03's invariant), not assumed. -/
+theorem same_effect_upgrade_plan (q : Str → Bool) (hq : BareSafe q) {m : LMap} (L : Loaded m) {A R targets plan : List Id}
+    (inv : RowsInv m A R) (hplan : C01.UpgradePlan m R targets plan) (osteps : List Step) (db₀ : DB)
+    (hsteps : osteps.all (stepOk q) = true)
+    (hv : osteps.map (·.ver) = verLists m R (plan.map (Model.Rev.Step.rev · true)))
+    (hdb : db₀.version = if (R.map String.toList).isEmpty then none else some (R.map String.toList))
+    (hne : (R.map String.toList).isEmpty = true → osteps ≠ []) :
+    sameOutcome ((offline q (R.map String.toList) osteps).bind (fun script => execScript q script db₀)) (online q osteps db₀) :=
+  same_effect_partial q hq _ osteps db₀ hsteps hdb hne (midOk_upgrade_plan L inv hplan osteps hv)
+
+/-- **C12.same_effect_downgrade_plan.** The same for `downgrade --sql` and every plan Alembic
+computes (`C02.DowngradePlan`). -/
+theorem same_effect_downgrade_plan (q : Str → Bool) (hq : BareSafe q) {m : LMap} (L : Loaded m) {A R roots plan : List Id}
+    (inv : RowsInv m A R) (hplan : C02.DowngradePlan m R roots plan) (osteps : List Step) (db₀ : DB)
+    (hsteps : osteps.all (stepOk q) = true)
+    (hv : osteps.map (·.ver) = verLists m R (plan.map (Model.Rev.Step.rev · false)))
+    (hdb : db₀.version = if (R.map String.toList).isEmpty then none else some (R.map String.toList))
+    (hne : (R.map String.toList).isEmpty = true → osteps ≠ []) :
+    sameOutcome ((offline q (R.map String.toList) osteps).bind (fun script => execScript q script db₀)) (online q osteps db₀) :=
+  same_effect_partial q hq _ osteps db₀ hsteps hdb hne (midOk_downgrade_plan L inv hplan osteps hv)
+
+
+/-! non-vacuity: two roots and a merge (`a`, `b`, `c <- (a, b)`): the version operations of `upgrade heads` from the empty
+    table are insert, insert, (delete + update), and `midOk` holds for them -/
+def exMerge : Model.Rev.Hist := [⟨"a", [], [], []⟩, ⟨"b", [], [], []⟩, ⟨"c", ["a", "b"], [], []⟩]
+
+example : (match Model.Rev.load exMerge with
+    | .ok m =>
+      let vl := verLists m [] (["a", "b", "c"].map (Model.Rev.Step.rev · true))
+      decide (vl = [[.insert "a".toList], [.insert "b".toList], [.delete "a".toList, .update "b".toList "c".toList]]) &&
+        midOk [] (vl.map (fun v => { comment := [], body := [], ver := v }))
+    | .error _ => false) = true := by decide +kernel
 
 end C12
